@@ -79,6 +79,7 @@ def deviations(ctx):
     dcfg = 'CONSTANTS\n  Nums = {0, 1, 7}\n  TableNums = {0, 1}\n  Dev = %s\n  MaxLines = 3\nSPECIFICATION Spec\nINVARIANTS %s\nCHECK_DEADLOCK FALSE\n'
     jobs.append((dict(module="Disasm", cfg=dcfg % ('{"StaleErr"}', "ErrorNotPartial"), name="dev_disasm_err", expect_violation=True), "ErrorNotPartial"))
     jobs.append((dict(module="Disasm", cfg=dcfg % ('{"SliceFixed"}', "Total"), name="dev_disasm_panic", expect_violation=True), "Total"))
+    jobs.append((dict(module="Disasm", cfg=(dcfg % ('{"RingWindow"}', "FunctionScoped")).replace("MaxLines = 3", "MaxLines = 5"), name="dev_disasm_ring", expect_violation=True), "FunctionScoped"))
     scfg = 'CONSTANTS\n  Faults = {"none", "kernelrefuses", "badyaml"}\n  Dev = %s\nSPECIFICATION Spec\nINVARIANTS ExecOnlyUnderFilter FailureExitsNonZeroWithoutTarget\nCHECK_DEADLOCK FALSE\n'
     jobs.append((dict(module="Sandbox", cfg=scfg % '{"IgnoreLoadError"}', name="dev_sandbox", expect_violation=True), None))
     jobs.append((dict(module="Sandbox", cfg=(scfg % '{"TruncatedRead"}').replace("ExecOnlyUnderFilter", "WholeFileEnforced ExecOnlyUnderFilter"), name="dev_sandbox_trunc", expect_violation=True), None))
